@@ -108,9 +108,11 @@ namespace cs
                     if ((env.track.ev[i].op == 'N' || env.track.ev[i].op == 'A')
                         && env.track.ev[i].ptr == rec.p)
                         ++n;
-                if (n != 1 || env.track.ev.size() - t0 != 1)
-                    violate("C09", "tracker_events", "a successful deallocation produced %zu tracker event(s)",
-                            env.track.ev.size() - t0);
+                unsigned want = (comp->tracked_leaf < 0 || comp->tracked_leaf == rec.leaf) ? 1 : 0;
+                if (n != want || env.track.ev.size() - t0 != want)
+                    violate("C09,C08", "tracker_events", "the deallocation of memory served by leaf %d produced "
+                                                         "%zu tracker event(s), expected %u",
+                            rec.leaf, env.track.ev.size() - t0, want);
             }
         };
 
@@ -226,10 +228,11 @@ namespace cs
                             if ((env.track.ev[i].op == 'n' || env.track.ev[i].op == 'a')
                                 && env.track.ev[i].ptr == p)
                                 ++n;
-                        if (n != 1 || env.track.ev.size() - t0 != 1)
-                            violate("C09", "tracker_events", "a successful allocation produced %zu tracker "
-                                                             "event(s)",
-                                    env.track.ev.size() - t0);
+                        unsigned want = (comp->tracked_leaf < 0 || comp->tracked_leaf == served->leaf) ? 1 : 0;
+                        if (n != want || env.track.ev.size() - t0 != want)
+                            violate("C09", "tracker_events", "an allocation served by leaf %d produced %zu "
+                                                             "tracker event(s), expected %u",
+                                    served->leaf, env.track.ev.size() - t0, want);
                     }
                     check_leaf_problem("allocation");
                     std::memset(p, 0x5A, want);
@@ -241,6 +244,66 @@ namespace cs
                     if (live.empty())
                         continue;
                     do_free(std::size_t(o.arg(0)) % live.size());
+                }
+                else if (o.kind == "mvw")
+                {
+                    // move-assign a second instance of the composition (other knobs) onto this one: what was
+                    // allocated through the source is released through the target afterwards
+                    while (!live.empty())
+                        do_free(live.size() - 1);
+                    auto keep_align = env.min_align, keep_th = env.th1;
+                    env.min_align   = std::size_t(1) << (std::size_t(o.arg(0)) % 7);
+                    env.th1         = 8 + std::size_t(o.arg(1)) % 300;
+                    std::unique_ptr<Comp> other(it->second(env));
+                    env.min_align = keep_align;
+                    env.th1       = keep_th;
+                    std::vector<Rec> moved;
+                    for (int k = 0; k < 3; ++k)
+                    {
+                        Req r{TRAITS, k == 1 && other->array_ok, k == 1 ? std::size_t(3) : std::size_t(1),
+                              other->fixed_size ? other->fixed_size : 24 + std::size_t(o.arg(2)) % 100,
+                              other->fixed_size ? other->fixed_align : 8};
+                        auto n0 = env.log.calls.size();
+                        env.log.begin_op(0);
+                        heap.begin_op(0);
+                        void* p = nullptr;
+                        try
+                        {
+                            p = other->alloc(r);
+                        }
+                        catch (const std::bad_alloc&)
+                        {
+                        }
+                        heap.end_op();
+                        if (!p)
+                            continue;
+                        for (auto i = n0; i < env.log.calls.size(); ++i)
+                        {
+                            auto& c = env.log.calls[i];
+                            if (c.is_alloc() && c.ok && c.ptr == p)
+                                moved.push_back({p, r, c.leaf, c.is_array(), c.count, c.size, c.align});
+                        }
+                    }
+                    if (comp->move_assign_from(*other))
+                    {
+                        stats().hit("reach.composition_move_assigned");
+                        for (auto& m : moved)
+                            live.push_back(m);
+                        other.reset(); // the moved-from instance goes away
+                    }
+                    else
+                    {
+                        // not assignable: give the memory back through the instance that served it
+                        auto keep = std::move(comp);
+                        comp      = std::move(other);
+                        for (auto& m : moved)
+                            live.push_back(m);
+                        while (!live.empty())
+                            do_free(live.size() - 1);
+                        other = std::move(comp);
+                        comp  = std::move(keep);
+                    }
+                    check_leaf_problem("move assignment of the composition");
                 }
                 else if (o.kind == "mx")
                 {
